@@ -13,7 +13,7 @@ Hypothesis HC : closed b lo c h L.
 Lemma next_real_L : forall fuel i p, nextok b lo c h L i -> next_real fuel b i = Ok p -> L p.
 Proof.
   induction fuel as [|fuel IH]; intros i p Hk; simpl; [discriminate|].
-  destruct Hk as [Hs|[hi [l [K1 [K2 [K3 [K4 [K5 K6]]]]]]]].
+  destruct Hk as [Hs|[hi [l [K1 [K2 [K3 [K4 [K5 [K6 K7]]]]]]]]].
   - destruct (HC i Hs) as [x [X1 [X2 _]]]. rewrite X1, (small_not_pointer x X2).
     intros H; inversion H; subst; auto.
   - rewrite K1, K2, K3. fold (ptr_target hi l).
